@@ -63,6 +63,12 @@ class S2(object):
     def __init__(self):
         self.y = vsc.rand_bit_t(3)
         self.z = vsc.rand_enum_t(E1)
+        self.rz = vsc.randsz_list_t(vsc.bit_t(3))    # a random-size list inside the NON-random sub-object
+        self.rz.append(5)
+        self.rz.append(2)
+    @vsc.constraint
+    def cz(self):
+        self.rz.size.inside(vsc.rangelist(vsc.rng(1, 4)))
 
 @vsc.randobj
 class T(object):
@@ -320,6 +326,14 @@ class Session:
                 vios.append(self.V("nonrandom_changed", "%s%s" % (kind, " (failed call)" if st_ == "sf" else ""),
                                    "field %s is not random for this call but changed from %d to %d" % (n, before[n], now[n])))
                 self.val[n] = now[n]
+        try:
+            rz = [int(x) for x in self.obj.s2.rz]
+            rz_len = (len(self.obj.s2.rz), self.obj.s2.rz.size)
+        except Exception as e_:
+            rz, rz_len = repr(e_), None
+        if rz != [5, 2] or rz_len != (2, 2):
+            vios.append(self.V("nonrandom_changed", "%s%s" % (kind, " (failed call)" if st_ == "sf" else ""),
+                               "the random-size list s2.rz of the non-random sub-object held [5, 2], now %s (len, size = %s)" % (rz, rz_len)))
         if vios:
             return vios[:1]
         if st_ == "sf":
